@@ -231,6 +231,64 @@ class C02(Prop):
             return 'F9'
         return None
 
+    def extra_checks(self, ctx):
+        """what a real RPCSession WRITES for batches that need no handler at all (every member invalid): the batch response -
+        one error entry per member - is complete on receipt and it is the session that has to send it"""
+        import asyncio
+        from harness.core import Failure
+        from harness import sessions
+        from aiorpcx import session, jsonrpc
+        out, n = [], 0
+        batches = [[1, 2, 3], ['x'], [None], [{'jsonrpc': '2.0', 'method': 5, 'id': 1}],
+                   [{'jsonrpc': '2.0', 'method': 'm', 'params': 7, 'id': 2}, 5], [[], {}]]
+        for pname in ('v2', 'loose', 'auto'):
+            for transport in ('rs', 'us'):
+                loop = sessions.new_loop()
+                try:
+                    class S(session.RPCSession):
+                        def default_connection(self):
+                            return jsonrpc.JSONRPCConnection(cm.cc.proto_class(pname))
+
+                        async def handle_request(self, request):
+                            return 'pong'
+                    proto, ft, s = sessions.attach(S, 'server', transport)
+
+                    async def main():
+                        await sessions.settle(3)
+                        res = []
+                        if pname == 'auto':
+                            proto.data_received(b'{"jsonrpc":"2.0","method":"hello"}\n')
+                            await asyncio.sleep(0.05)
+                        for b in batches:
+                            n0 = len(ft.written)
+                            proto.data_received(json.dumps(b).encode() + b'\n')
+                            await asyncio.sleep(0.1)
+                            res.append(sessions.sent_messages(ft, n0))
+                        n0 = len(ft.written)
+                        proto.data_received(b'{"jsonrpc":"2.0","method":"ping","id":4242}\n')
+                        await asyncio.sleep(0.1)
+                        return res, sessions.sent_messages(ft, n0)
+                    res, probe = loop.run_until_complete(main())
+                finally:
+                    sessions.close_loop(loop)
+                for b, msgs in zip(batches, res):
+                    n += 1
+                    ok = (len(msgs) == 1 and isinstance(msgs[0], list) and len(msgs[0]) == len(b)
+                          and all(isinstance(e, dict) and isinstance(e.get('error'), dict) and 'id' in e for e in msgs[0]))
+                    if not ok:
+                        out.append(Failure({'kind': 'session_batch', 'proto': pname, 'transport': transport, 'batch': jv.to_plain(b)},
+                                           {'written': jv.to_plain(msgs)},
+                                           'a request batch whose members are all invalid was not answered with exactly one batch response '
+                                           'holding one error entry per member'))
+                        break
+                if len(out) >= 2:
+                    break
+            if len(out) >= 2:
+                break
+        ctx['extra_evals'] += n
+        ctx['notes'].append(f'all-invalid request batches through a real RPCSession (what is written to the transport): {n}')
+        return out
+
     def nontrivial(self, case, obs):
         return any(m and m.get('kind') == 'batch' and m['nreq'] >= 2 for m in case['meta'])
 
